@@ -289,7 +289,8 @@ func (r *vRig) journalEnd() vEvent {
 			chunks = append(chunks, map[string]interface{}{"s": -1, "e": -1, "n": -1})
 			continue
 		}
-		res, err := sinkcluster.NewClusterCounter(e.RecordingStart, e.RecordingEnd).Count(bytes.NewReader(data))
+		// the reader applied to this line alone (a neighbouring zero-length chunk would fall into the same window)
+		res, err := sinkcluster.NewClusterCounter(e.RecordingStart, e.RecordingEnd).Count(bytes.NewReader(append(append([]byte(nil), line...), '\n')))
 		n := -1
 		if err == nil {
 			n = int(res.Sum)
